@@ -83,20 +83,24 @@ func ShareWithConfig[T any](config ShareConfig[T]) func(Observable[T]) Observabl
 		// Not an atomic counter, because it is protected by mutex.
 		var refCount *int
 
-		var hasBeenResetOnError int32      // atomic.Bool is not available in Go 1.18
-		var hasBeenResetOnCompletion int32 // atomic.Bool is not available in Go 1.18
+		// Like the reference counter, these flags belong to one execution: set when the source of
+		// that execution terminated without a reset, they must not be read (or cleared) by another one.
+		var hasBeenResetOnError *int32      // atomic.Bool is not available in Go 1.18
+		var hasBeenResetOnCompletion *int32 // atomic.Bool is not available in Go 1.18
 
 		// Unsafe: must be called in a mutex lock.
-		getOrCreateSubject := func() (Subject[T], Subscription, *int, bool) {
+		getOrCreateSubject := func() (Subject[T], Subscription, *int, *int32, *int32, bool) {
 			if subject == nil || sourceSubscription == nil {
 				subject = config.Connector()
 				sourceSubscription = NewSubscription(nil)
 				refCount = new(int)
+				hasBeenResetOnError = new(int32)
+				hasBeenResetOnCompletion = new(int32)
 
-				return subject, sourceSubscription, refCount, true
+				return subject, sourceSubscription, refCount, hasBeenResetOnError, hasBeenResetOnCompletion, true
 			}
 
-			return subject, sourceSubscription, refCount, false
+			return subject, sourceSubscription, refCount, hasBeenResetOnError, hasBeenResetOnCompletion, false
 		}
 
 		// Unsafe: must be called in a mutex lock.
@@ -119,7 +123,7 @@ func ShareWithConfig[T any](config ShareConfig[T]) func(Observable[T]) Observabl
 
 			// `currentSubject` is a backup (local reference) of `subject`
 			// to manipulate it even after reset.
-			currentSubject, currentSourceSubscription, currentRefCount, createdSubject := getOrCreateSubject()
+			currentSubject, currentSourceSubscription, currentRefCount, currentResetOnError, currentResetOnCompletion, createdSubject := getOrCreateSubject()
 			*currentRefCount++
 
 			mu.Unlock()
@@ -130,8 +134,8 @@ func ShareWithConfig[T any](config ShareConfig[T]) func(Observable[T]) Observabl
 			sub := currentSubject.SubscribeWithContext(subscriberCtx, destination)
 
 			if createdSubject {
-				atomic.StoreInt32(&hasBeenResetOnError, 0)
-				atomic.StoreInt32(&hasBeenResetOnCompletion, 0)
+				atomic.StoreInt32(currentResetOnError, 0)
+				atomic.StoreInt32(currentResetOnCompletion, 0)
 
 				// We need to handle errors and completion so we added a
 				// proxy observer between source and subject.
@@ -146,7 +150,7 @@ func ShareWithConfig[T any](config ShareConfig[T]) func(Observable[T]) Observabl
 								mu.Unlock()
 								verifPoint("operator_connectable:ShareWithConfig:unlocked#1", nil)
 							} else {
-								atomic.StoreInt32(&hasBeenResetOnError, 1)
+								atomic.StoreInt32(currentResetOnError, 1)
 							}
 
 							currentSubject.ErrorWithContext(ctx, err)
@@ -159,7 +163,7 @@ func ShareWithConfig[T any](config ShareConfig[T]) func(Observable[T]) Observabl
 								mu.Unlock()
 								verifPoint("operator_connectable:ShareWithConfig:unlocked#2", nil)
 							} else {
-								atomic.StoreInt32(&hasBeenResetOnCompletion, 1)
+								atomic.StoreInt32(currentResetOnCompletion, 1)
 							}
 
 							currentSubject.CompleteWithContext(ctx)
@@ -183,7 +187,7 @@ func ShareWithConfig[T any](config ShareConfig[T]) func(Observable[T]) Observabl
 
 				*currentRefCount--
 				if config.ResetOnRefCountZero {
-					if *currentRefCount == 0 && atomic.LoadInt32(&hasBeenResetOnError) == 0 && atomic.LoadInt32(&hasBeenResetOnCompletion) == 0 {
+					if *currentRefCount == 0 && atomic.LoadInt32(currentResetOnError) == 0 && atomic.LoadInt32(currentResetOnCompletion) == 0 {
 						reset(currentSubject, currentSourceSubscription)
 					}
 				}
